@@ -77,6 +77,11 @@ def fetchHolds (items : List Item) (cut o hwm : Int) (i : Impl) : Bool :=
     && (i.out == "eof" || i.out == "unexpectedEOF")
     -- nothing stored at or above the start offset is jumped over
     && (allRecords items).all (fun r => !(o ≤ r.1 && r.1 < i.off) || i.d.contains r)
+    -- v0/v1 items are read whole or not at all: with the contract's first item the position never moves backwards
+    -- wherever the response is cut
+    && (match items with
+        | it :: _ => !(o ≤ it.last && items.all (fun x => match x with | .b2 .. => false | _ => true)) || o ≤ i.off
+        | [] => true)
     -- under the fetch contract (the response starts with the batch containing the offset, sent whole) the
     -- position never moves backwards
     && (match items with
@@ -151,7 +156,7 @@ def step (line : String) : String :=
     match ws.head?, parseImpl impl with
     | some op, some i =>
       let v := variantOf op
-      if op == "fetch" || op == "legacy-fetch" || op == "fetchx" || op == "legacy-fetchx" then
+      if op == "fetch" || op == "fetchts" || op == "legacy-fetch" || op == "fetchx" || op == "legacy-fetchx" then
         -- `fetchx`: the same round read after the batch's adjusted deadline has passed (`expired = true`): the round
         -- must end with RequestTimedOut instead of io.EOF, everything else as for `fetch`
         let expired := op.endsWith "fetchx"
